@@ -43,3 +43,8 @@ func VerifLifeQueueLighthouse(c *Control, addrs []netip.Addr) {
 		}
 	}
 }
+
+// VerifLifeLedger returns every udp listener Main opened for this node (Interface.writers as handed over by Main),
+// to be called right after Main: the harness keeps the list itself, so a listener the interface later forgets is
+// still checked after Stop.
+func VerifLifeLedger(c *Control) []udp.Conn { return append([]udp.Conn{}, c.f.writers...) }
